@@ -51,12 +51,19 @@ fn name_case(case: &Json) -> Json {
     let root = scratch("name");
     let name = OsString::from_vec(bytes(&case["name"]));
     let parent = if jbool(&case["nested"]) { root.join("sub") } else { root.clone() };
+    // the same boundary directory, spelled differently (the boundary must be recognised whatever its spelling)
+    let boundary = match case["bstyle"].as_u64().unwrap_or(0) {
+        1 => PathBuf::from(format!("{}/", root.display())),
+        2 => root.join("."),
+        3 => PathBuf::from(format!("{}//", root.display())),
+        _ => root.clone(),
+    };
     let resource = parent.join(&name);
     let mut out = Map::new();
     // 1. update an existing resource
     std::fs::create_dir_all(&parent).unwrap();
     std::fs::write(&resource, b"old").unwrap();
-    match gix_lock::File::acquire_to_update_resource(&resource, gix_lock::acquire::Fail::Immediately, Some(root.clone())) {
+    match gix_lock::File::acquire_to_update_resource(&resource, gix_lock::acquire::Fail::Immediately, Some(boundary.clone())) {
         Ok(mut lock) => {
             out.insert("lock_name".into(), file_name_bytes(lock.lock_path()));
             out.insert("lock_parent_ok".into(), Json::from(lock.lock_path().parent() == Some(parent.as_path())));
@@ -72,7 +79,7 @@ fn name_case(case: &Json) -> Json {
             }
             out.insert("after_acquire".into(), listing(&root));
             // a second acquisition must fail while the first is held
-            let second = gix_lock::File::acquire_to_update_resource(&resource, gix_lock::acquire::Fail::Immediately, Some(root.clone()));
+            let second = gix_lock::File::acquire_to_update_resource(&resource, gix_lock::acquire::Fail::Immediately, Some(boundary.clone()));
             out.insert("second_acquire_ok".into(), Json::from(second.is_ok()));
             drop(second);
             lock.write_all(b"new").unwrap();
@@ -95,12 +102,13 @@ fn name_case(case: &Json) -> Json {
     let _ = std::fs::remove_dir_all(&root);
     std::fs::create_dir_all(&root).unwrap();
     let before = listing(&root);
-    match gix_lock::Marker::acquire_to_hold_resource(&resource, gix_lock::acquire::Fail::Immediately, Some(root.clone())) {
+    match gix_lock::Marker::acquire_to_hold_resource(&resource, gix_lock::acquire::Fail::Immediately, Some(boundary.clone())) {
         Ok(marker) => {
             out.insert("marker_lock_name".into(), file_name_bytes(marker.lock_path()));
             out.insert("after_marker_acquire".into(), listing(&root));
             drop(marker);
             out.insert("after_marker_drop".into(), listing(&root));
+            out.insert("boundary_exists_after_drop".into(), Json::from(root.is_dir()));
         }
         Err(e) => {
             out.insert("marker_err".into(), Json::from(e.to_string()));
